@@ -24,6 +24,7 @@ The executable counterpart is `Model/Cluster.lean: repairBegin / repairEnd`, exe
 real poller with the peer's fetch held at a gate while the peer is written to (checks/C01.py).
 -/
 import Datacake.Props.C01
+import Datacake.Model.Cluster
 
 namespace Datacake.C01c
 open Datacake.Lww Datacake.OrSwot Datacake.Ts Datacake.C05 Datacake.C01
@@ -297,5 +298,67 @@ example :
     simp only [List.mem_singleton] at ho; subst ho
     exact absurd hc (by unfold Current; decide)
   · unfold Current; decide
+
+/-! ### The executable model: the split exchange is the exchange -/
+
+namespace Split
+open Datacake.Cluster
+
+theorem applyModified_nil (c : Cluster) (j i : Nat) : applyModified c j i [] = (c, true) := rfl
+
+/-- **repair_split_eq**: in the executable cluster model, `repairBegin` followed at once by `repairEnd`
+(nothing happens at the peer in between) is exactly `repair`: the split adds behaviours, it changes
+none. -/
+theorem repair_split_eq (c : Cluster) (j i : Nat) (rf : Bool) :
+    match repairBegin c j i rf with
+    | (c1, .finished out) => repair c j i rf = (c1, out)
+    | (c1, .fetching p) => repair c j i rf = repairEnd c1 j p := by
+  unfold repairBegin repair
+  by_cases h1 : (getNode c i).exists_ = true
+  · simp only [h1, Bool.not_true, Bool.false_eq_true, if_false]
+    by_cases h2 : ((getNode c j).tracker.getD i none == some (getNode c i).change) = true
+    · simp only [h2, if_true]
+    · simp only [h2, Bool.false_eq_true, if_false]
+      generalize hD : OrSwot.diff (getNode (touch c j) j).ks.set (getNode c i).ks.set = D
+      obtain ⟨modified, removed⟩ := D
+      simp only
+      cases rf with
+      | true =>
+        simp only [if_true]
+        generalize hR : applyRemovals (touch c j) j removed = R
+        obtain ⟨c1, ok1⟩ := R
+        cases ok1 with
+        | false => simp
+        | true =>
+          simp only [Bool.not_true, Bool.false_eq_true, if_false, if_true]
+          cases modified with
+          | nil => simp [applyModified_nil, finishTracker]
+          | cons m ms =>
+            simp only [List.isEmpty_cons, Bool.false_eq_true, if_false, repairEnd]
+            generalize hM : applyModified c1 j i (m :: ms) = M
+            obtain ⟨c2, ok2⟩ := M
+            cases ok2 <;> simp [finishTracker]
+      | false =>
+        simp only [Bool.false_eq_true, if_false]
+        cases modified with
+        | nil =>
+          simp only [List.isEmpty_nil, if_true, applyModified_nil]
+          generalize hR : applyRemovals (touch c j) j removed = R
+          obtain ⟨c1, ok1⟩ := R
+          cases ok1 <;> simp [finishTracker]
+        | cons m ms =>
+          simp only [List.isEmpty_cons, Bool.false_eq_true, if_false, repairEnd]
+          generalize hM : applyModified (touch c j) j i (m :: ms) = M
+          obtain ⟨c2, ok2⟩ := M
+          cases ok2 with
+          | false => simp
+          | true =>
+            simp only [Bool.not_true, Bool.false_eq_true, if_false, if_true]
+            generalize hR : applyRemovals c2 j removed = R
+            obtain ⟨c3, ok3⟩ := R
+            cases ok3 <;> simp [finishTracker]
+  · simp only [h1, Bool.not_false, if_true]
+
+end Split
 
 end Datacake.C01c
